@@ -191,8 +191,8 @@ pub fn run(ctx: &Ctx) {
     let inputs = curated();
     let all = lattice_all(0, ALL_BITS);
     let thresholds: Vec<(u32, u32)> = if thorough { vec![(1, 1), (2, 1), (1, 2), (3, 3)] } else { vec![(1, 1)] };
-    // quick: every 4th curated input x Lambda_full, all curated inputs x Lambda<=3; thorough: all x Lambda_full
-    let sel: Vec<Vec<String>> = if thorough { inputs.clone() } else { inputs.iter().enumerate().filter(|(i, _)| i % 4 == 0).map(|(_, v)| v.clone()).collect() };
+    // quick: every 5th curated input x Lambda_full, all curated inputs x Lambda<=3; thorough: all x Lambda_full
+    let sel: Vec<Vec<String>> = if thorough { inputs.clone() } else { inputs.iter().enumerate().filter(|(i, _)| i % 5 == 0).map(|(_, v)| v.clone()).collect() };
     let njobs = sel.len() * all.len();
     par_for(njobs, |j| {
         let tcs = &sel[j / all.len()];
@@ -204,7 +204,7 @@ pub fn run(ctx: &Ctx) {
             valid_check(ctx, tcs, &Cfg::with(base.bits, *r, *l));
         }
     });
-    ctx.run.space(json!({"universe": if thorough {"curated inputs"} else {"every 4th curated input"}, "sets": sel.len(), "settings": "Lambda_full: all 24,576 API-reachable boolean combinations", "settings_count": all.len(), "thresholds": format!("{:?} (non-default thresholds only with r)", thresholds)}));
+    ctx.run.space(json!({"universe": if thorough {"curated inputs"} else {"every 5th curated input"}, "sets": sel.len(), "settings": "Lambda_full: all 24,576 API-reachable boolean combinations", "settings_count": all.len(), "thresholds": format!("{:?} (non-default thresholds only with r)", thresholds)}));
     if !thorough {
         let k3 = lattice_le(0, ALL_BITS, 3);
         par_for(inputs.len() * k3.len(), |j| {
